@@ -1157,18 +1157,26 @@ func (sc *SchedulerCache) AddPriorityClass(obj interface{}) {
 }
 
 func (sc *SchedulerCache) deletePriorityClass(pc *schedulingv1.PriorityClass) {
-	if pc.GlobalDefault {
+	delete(sc.PriorityClasses, pc.Name)
+
+	// Only when the class that is the default goes away does the default change; it falls
+	// back to another class marked globalDefault, if there is one.
+	if sc.defaultPriorityClass != nil && sc.defaultPriorityClass.Name == pc.Name {
 		sc.defaultPriorityClass = nil
 		sc.defaultPriority = 0
+		for _, other := range sc.PriorityClasses {
+			if other.GlobalDefault && preferredDefaultPriorityClass(other, sc.defaultPriorityClass) {
+				sc.defaultPriorityClass = other
+				sc.defaultPriority = other.Value
+			}
+		}
 	}
-
-	delete(sc.PriorityClasses, pc.Name)
 }
 
 func (sc *SchedulerCache) addPriorityClass(pc *schedulingv1.PriorityClass) {
-	if pc.GlobalDefault {
+	if pc.GlobalDefault && preferredDefaultPriorityClass(pc, sc.defaultPriorityClass) {
 		if sc.defaultPriorityClass != nil {
-			klog.Errorf("Updated default priority class from <%s> to <%s> forcefully.",
+			klog.Errorf("Updated default priority class from <%s> to <%s>.",
 				sc.defaultPriorityClass.Name, pc.Name)
 		}
 		sc.defaultPriorityClass = pc
@@ -1176,6 +1184,20 @@ func (sc *SchedulerCache) addPriorityClass(pc *schedulingv1.PriorityClass) {
 	}
 
 	sc.PriorityClasses[pc.Name] = pc
+}
+
+// preferredDefaultPriorityClass tells whether pc, marked globalDefault, takes precedence over the
+// current default. Several classes can be marked globalDefault after a race; like the API
+// server's admission plugin the one with the lowest value is used (then the lowest name), so
+// that the default does not depend on the order in which the classes were notified.
+func preferredDefaultPriorityClass(pc, current *schedulingv1.PriorityClass) bool {
+	if current == nil {
+		return true
+	}
+	if pc.Value != current.Value {
+		return pc.Value < current.Value
+	}
+	return pc.Name < current.Name
 }
 
 func (sc *SchedulerCache) updateResourceQuota(quota *v1.ResourceQuota) {
